@@ -12,6 +12,7 @@ import (
 	"io/ioutil"
 	"net"
 	"os"
+	"path/filepath"
 	"sort"
 	"strings"
 	"sync"
@@ -611,6 +612,21 @@ func (n *simNode) snapTaken() {
 	t := <-n.r.snapTakenCh
 	n.r.onSnapshotTaken(t)
 	n.snapReq = nil
+}
+
+// termFileMismatch: the persisted (term, votedFor) must be what the node holds in memory after
+// every event (a granted vote is durable before the reply leaves).  Returns "" when they agree.
+func (n *simNode) termFileMismatch() string {
+	matches, _ := filepath.Glob(filepath.Join(n.dir, "*.term"))
+	if len(matches) != 1 {
+		return fmt.Sprintf("%d term files", len(matches))
+	}
+	name := strings.TrimSuffix(filepath.Base(matches[0]), ".term")
+	want := fmt.Sprintf("%d-%d", n.r.term, n.r.votedFor)
+	if name != want {
+		return fmt.Sprintf("memory has term-vote %s, disk has %s", want, name)
+	}
+	return ""
 }
 
 // bootstrapDir writes the bootstrap entry (1,1) into a fresh storage directory,
